@@ -1,7 +1,7 @@
 /// entry (i, j) of the left bundle does not exceed the quantity of the same asset on the right (absent = 0)
 pub open spec fn entry_le(l: Seq<(PolicyID, Assets)>, rhs: MultiAsset, i: int, j: int) -> bool {
-    l[i].1.0@[j].1.0 <= amt(rhs, l[i].0, l[i].1.0@[j].0).0
+    l[i].1.0.entries@[j].1.0 <= amt(rhs, l[i].0, l[i].1.0.entries@[j].0).0
 }
 pub open spec fn ma_le(l: Seq<(PolicyID, Assets)>, rhs: MultiAsset) -> bool {
-    forall|i: int, j: int| 0 <= i < l.len() && 0 <= j < l[i].1.0@.len() ==> entry_le(l, rhs, i, j)
+    forall|i: int, j: int| 0 <= i < l.len() && 0 <= j < l[i].1.0.entries@.len() ==> entry_le(l, rhs, i, j)
 }
